@@ -6,7 +6,7 @@
 
 #define VP_SEM_IS(s) ((s) != NULL && __CPROVER_rw_ok ((s), sizeof (*(s))) && (nsync_atomic_uint32_ *) (s) == vp_reg.sem_word)
 #define VP_S_FIELDS vp_s.taken, vp_s.posted, vp_s.last_load_valid, vp_s.last_load, vp_s.futex_timedout, vp_s.waits, vp_s.wakes, \
-	vp_s.wake_after_post, vp_s.clock_valid, vp_s.clock, vp_s.clock_reads_after_timeout
+	vp_s.wake_after_post, vp_s.reads_at_timeout, vp_clk.valid, vp_clk.last, vp_clk.reads
 /* deadline <= clock reading, lexicographic on normalised values */
 #define VP_TIME_LE(a,b) ((a).tv_sec < (b).tv_sec || ((a).tv_sec == (b).tv_sec && (a).tv_nsec <= (b).tv_nsec))
 
@@ -22,8 +22,8 @@ __CPROVER_ensures (__CPROVER_return_value == 0 || __CPROVER_return_value == ETIM
 __CPROVER_ensures (__CPROVER_return_value != 0 || vp_s.taken == __CPROVER_old (vp_s.taken) + 1u)
 /* "ETIMEDOUT only at or after its deadline": the kernel reported a timeout AND a clock reading taken afterwards has reached the deadline */
 __CPROVER_ensures (__CPROVER_return_value != ETIMEDOUT ||
-		   (vp_s.taken == __CPROVER_old (vp_s.taken) && vp_s.futex_timedout && vp_s.clock_reads_after_timeout >= 1u &&
-		    vp_s.clock_valid && VP_TIME_LE (abs_deadline, vp_s.clock)))
+		   (vp_s.taken == __CPROVER_old (vp_s.taken) && vp_s.futex_timedout && vp_clk.reads > vp_s.reads_at_timeout &&
+		    vp_clk.valid && VP_TIME_LE (abs_deadline, vp_clk.last)))
 __CPROVER_assigns (VP_S_FIELDS, *(uint32_t *) s, vp_errno);
 
 /* V: increment with release order, THEN wake */
